@@ -213,7 +213,7 @@ class _OsProxy:
 
     def urandom(self, n):
         if self.real:
-            return os.urandom(n)
+            return _real_urandom(n)
         out = b''
         while len(out) < n:
             out += hashlib.sha256(self.label + self.ctr.to_bytes(8, 'big')).digest()
@@ -223,6 +223,25 @@ class _OsProxy:
 
 RANDOM = _OsProxy()
 A.os = RANDOM
+
+# ... and for every other spelling (`from os import urandom`, `secrets.token_bytes`, `random.SystemRandom`): the one
+# function they all end in. `random` binds os.urandom at import time, hence the second assignment.
+import random as _random  # noqa: E402
+
+_real_urandom = os.urandom
+
+
+def _urandom(n):
+    if RANDOM.real:
+        return _real_urandom(n)
+    return RANDOM.urandom(n)
+
+
+os.urandom = _urandom
+_random._urandom = _urandom
+for _k, _v in list(vars(A).items()):
+    if _v is _real_urandom:
+        setattr(A, _k, _urandom)
 
 
 def set_random(label, real=False):
